@@ -51,3 +51,17 @@ def _f05(f, pid, case, clause, ctx):
             if st in base or mb > f["params"]["max_ratio"] * budget:
                 return False
     return True
+
+
+@matcher("auto_chunks_previous_tolerance")
+def _f03(f, pid, case, clause, ctx):
+    """C16: with previous_chunks, 'auto' keeps/merges previous chunks up to
+    array.chunk-size-tolerance x the limit."""
+    if not clause.endswith("auto-block-exceeds-byte-limit") or case.get("fn") != "normalize_chunks":
+        return False
+    if not case.get("prev"):
+        return False
+    prod = case["itemsize"]
+    for ax in case["out"]["chunks"]:
+        prod *= max(ax)
+    return prod <= f["params"]["tolerance"] * case["limit"]
